@@ -25,5 +25,8 @@ try:
     print("seedtest: check exit code", rc)
     sys.exit(rc)
 finally:
+    # the translators of C08/C20 regenerate these from the PATCHED source during a seeded run: put the committed
+    # (= generated from the unchanged tree) versions back so that nothing seeded is ever left in the working tree
+    subprocess.call(["git", "-C", "/verif", "checkout", "--", "coq/theories/Flags/Generated.v", "coq/theories/Iso/Generated.v"])
     subprocess.call(["git", "-C", "/repo", "worktree", "remove", "--force", wt])
     shutil.rmtree(wt, ignore_errors=True)
